@@ -297,7 +297,9 @@ func c11(r *Report) {
 				continue
 			}
 			if fa, ok := st.Addr.(*ssa.FieldAddr); ok && fieldObj(fa).Name() == "compressed" {
-				if anyIn(w.backSlice(st.Val, flowOpt{BinOps: true}), func(v ssa.Value) bool { return isCallValue(v, "(*bytes.Buffer).ReadByte") || isExtractOfCall(v, "(*bytes.Buffer).ReadByte") }) {
+				if anyIn(w.backSlice(st.Val, flowOpt{BinOps: true}), func(v ssa.Value) bool {
+					return isCallValue(v, "(*bytes.Buffer).ReadByte") || isExtractOfCall(v, "(*bytes.Buffer).ReadByte")
+				}) {
 					okRead = G(ad).Before(st, rd[0]) || st.Block() == rd[0].Block()
 				}
 			}
@@ -409,7 +411,10 @@ func c11(r *Report) {
 			}
 			ok = dn && de
 			// after it, no prefix is written
-			if g.PathTo([]ssa.Instruction{bare}, false, nil, func(i ssa.Instruction) bool { _, y := isCall(i, "(*bytes.Buffer).WriteByte", "encoding/binary.Write"); return y }) != nil {
+			if g.PathTo([]ssa.Instruction{bare}, false, nil, func(i ssa.Instruction) bool {
+				_, y := isCall(i, "(*bytes.Buffer).WriteByte", "encoding/binary.Write")
+				return y
+			}) != nil {
 				ok = false
 			}
 			// and every path to the prefix writer tested data for nil first
